@@ -68,7 +68,7 @@ Inductive tstep (s : sys) : label -> sys -> Prop :=
       let s1 := with_chans s (chans s ++ [subscribe sid (new_chan capacity)]) in
       let s2 := with_subs s1 (put (subs s1) (a_rule a) {| e_ref := 1; e_ch := c |}) in
       tstep s (LAddSubs sid) (with_adds s2 (put (adds s2) sid (add_at a (A2 c))))
-  | TAddSender sid a c : lookup (adds s) sid = Some a -> a_pc a = A2 c -> senders_held s = false ->
+  | TAddSender sid a c : lookup (adds s) sid = Some a -> a_pc a = A2 c -> senders_held s = false -> senders s <> [] ->
       tstep s (LAddSender sid)
         (with_adds (with_streams (with_senders s (senders s ++ [(KRule (a_rule a), c)]))
                                  (put (streams s) sid (mk_stream (Some (a_rule a)) c (seen s c))))
@@ -104,7 +104,11 @@ Inductive tstep (s : sys) : label -> sys -> Prop :=
   | TTaskSubsWait n r s1 c : nth_error (tasks s) n = Some (r, R0) -> subs_busy s = false -> rm_apply s r = (s1, Some c) ->
       tstep s (LTaskSubs n) (with_tasks s1 (upd (tasks s) n (r, R1 c)))
   | TTaskSender n r c : nth_error (tasks s) n = Some (r, R1 c) -> senders_held s = false ->
-      tstep s (LTaskSender n) (with_tasks (rm_sender s r) (del_nth (tasks s) n)).
+      tstep s (LTaskSender n) (with_tasks (rm_sender s r) (del_nth (tasks s) n))
+  (* fix 3703ee13: add_match finds msg_senders empty (the reader has failed since the first check) and gives up *)
+  | TAddSenderFail sid a c : lookup (adds s) sid = Some a -> a_pc a = A2 c -> senders_held s = false -> senders s = [] ->
+      tstep s (LAddSender sid)
+        (with_adds (with_subs (set_chan s c (drop_rcv sid (chan_at s c))) (del (subs s) (a_rule a))) (del (adds s) sid)).
 
 (* rm_apply leaves everything but subs and (one channel's closed flag) alone *)
 Lemma rm_apply_frame s r s1 o : rm_apply s r = (s1, o) ->
@@ -145,7 +149,9 @@ Proof.
     + exact (TAddSubsOcc s sid a e Ea Epc Eb Ee).
     + exact (TAddSubsVac s sid a Ea Epc Eb Ee).
   - destruct (lookup (adds s) sid) as [a|] eqn:Ea; [|discriminate]. destruct (a_pc a) eqn:Epc; try discriminate.
-    destruct (senders_held s) eqn:Eh; [discriminate|]. intros H; inversion H; subst s'. exact (TAddSender s sid a c Ea Epc Eh).
+    destruct (senders_held s) eqn:Eh; [discriminate|]. destruct (senders s) as [|p0 l0] eqn:Esn; intros H; inversion H; subst s'.
+    + exact (TAddSenderFail s sid a c Ea Epc Eh Esn).
+    + pose proof (TAddSender s sid a c Ea Epc Eh) as T. rewrite Esn in T. apply T. discriminate.
   - destruct (fresh s sid) eqn:Ef; [|discriminate]. intros H; inversion H; subst s'. now apply TUnfiltered.
   - destruct (lookup (streams s) sid) as [st|] eqn:Es; [|discriminate]. destruct (lookup (drops s) sid) eqn:Ed; [discriminate|].
     destruct (try_recv sid (chan_at s (s_ch st))) eqn:Er; try discriminate; intros H; inversion H; subst.
